@@ -4,9 +4,8 @@ use proptest::prelude::*;
 use serde::{Deserialize, Serialize};
 use std::collections::BTreeMap;
 use versatiles_core::types::TileBBox;
-use vt::containers::Target;
 use vt::engine::{Check, Fail, Obs};
-use vt::model::{Advert, Coord, Fmt, LevelSpec, Pay, SetSpec, Shape};
+use vt::model::Coord;
 use vt::sources::*;
 use vt::util::{self, Comp};
 use vt::{ensure_prop, fail};
@@ -15,60 +14,6 @@ use vt::{ensure_prop, fail};
 struct Case {
 	root: Node,
 	boxes: Vec<BoxSpec>,
-}
-
-/// 2-4 leaves with partially overlapping rectangles around a common anchor
-fn overlay_leaves() -> impl Strategy<Value = Vec<Leaf>> {
-	let anchor = (vt::gen::zoom(31), any::<u32>(), any::<u32>(), 0usize..3);
-	(anchor, proptest::collection::vec((0u32..7, 0u32..7, 1u32..12, 1u32..12, -1i8..=1, vt::gen::shape(), any::<u32>(), 0usize..3, 0usize..12, any::<u32>(), any::<bool>(), 0usize..3), 2..5)).prop_map(
-		|((z, ax, ay, fsel), parts)| {
-			let format = [Fmt::Png, Fmt::Pbf, Fmt::Json][fsel];
-			let mut leaves = vec![];
-			for (i, (dx, dy, w, h, dz, shape, seed, csel, ksel, lseed, ds, asel)) in parts.into_iter().enumerate() {
-				let z2 = (z as i16 + dz as i16).clamp(0, 31) as u8;
-				let size = Coord::size(z2);
-				let scale = |v: u32| -> u64 {
-					if z2 > z {
-						(v as u64) << (z2 - z)
-					} else {
-						(v as u64) >> (z - z2)
-					}
-				};
-				let ax = scale(ax % Coord::size(z) as u32) % size;
-				let ay = scale(ay % Coord::size(z) as u32) % size;
-				let x0 = (ax + dx as u64).min(size - 1) as u32;
-				let y0 = (ay + dy as u64).min(size - 1) as u32;
-				let mut levels = vec![LevelSpec { z: z2, x0, y0, w, h, shape: shape.clone(), seed }];
-				// some sources get a second level: different zoom ranges
-				if seed % 3 == 0 && z2 < 31 {
-					levels.push(LevelSpec { z: z2 + 1, x0: x0.saturating_mul(2), y0: y0.saturating_mul(2), w: w.min(6), h: h.min(6), shape: Shape::Dense, seed });
-				}
-				let comp = Comp::ALL[csel];
-				let kind = {
-					let t = Target::ALL[ksel % 5];
-					if ksel >= 10 || !t.accepts(format, comp) {
-						LeafKind::Mem(ds)
-					} else if ksel < 5 {
-						LeafKind::Repo(t)
-					} else {
-						LeafKind::Enc(t, lseed)
-					}
-				};
-				let spec = SetSpec {
-					tag: format!("src{i}"),
-					levels,
-					pay: if format == Fmt::Pbf { Pay::Mvt } else { Pay::CoordText },
-					format,
-					comp,
-					really_compressed: true,
-					advert: [Advert::Tight, Advert::Loose(1), Advert::Loose(3)][asel].clone(),
-					meta: None,
-				};
-				leaves.push(Leaf { spec, kind });
-			}
-			leaves
-		},
-	)
 }
 
 fn strategy() -> impl Strategy<Value = Case> {
@@ -81,7 +26,7 @@ fn strategy() -> impl Strategy<Value = Case> {
 		]
 		.boxed()
 	};
-	(overlay_leaves().prop_flat_map(move |leaves| leaves.into_iter().map(child).collect::<Vec<_>>()), 0u8..6, proptest::option::of(0u8..20), proptest::option::of(0u8..32), geo_bbox(), proptest::collection::vec(box_spec(), 1..5)).prop_map(
+	(overlay_leaves(None).prop_flat_map(move |leaves| leaves.into_iter().map(child).collect::<Vec<_>>()), 0u8..6, proptest::option::of(0u8..20), proptest::option::of(0u8..32), geo_bbox(), proptest::collection::vec(box_spec(), 1..5)).prop_map(
 		|(children, wrap, min, max, bbox, boxes)| {
 			let overlay = Node::Overlay(children);
 			let root = match wrap {
